@@ -5,6 +5,8 @@ from __future__ import annotations
 import numpy as np
 from hypothesis import strategies as st
 
+from .scenario import record
+
 OUTCOMES = ("S", "I", "F", "E", "s")  # big drop, tiny drop, rise, equal, medium drop
 
 
@@ -13,13 +15,13 @@ def outcome_lists():
         st.lists(st.sampled_from(OUTCOMES), min_size=1, max_size=10),
         st.sampled_from([["S"], ["F"], ["I"], ["E"], ["S", "F"], ["F", "S"], ["F", "F", "S"], ["I", "F"], ["s", "F", "F"]]),
     )
-    return st.fixed_dictionaries(dict(
+    return record(
         init=st.lists(st.sampled_from(("F", "S", "E", "s")), min_size=1, max_size=4),
         search=pat, poll=pat,
         noise_test=st.sampled_from(["equal", "equal", "equal", "differ"]),
         big=st.sampled_from([2.0, 5.0, 20.0]),
         start=st.sampled_from([100.0, 0.0, -7.5, 1e4]),
-    ))
+    )
 
 
 def make_value_script(oc):
